@@ -46,6 +46,7 @@ fn gen_c13(_tier: &str, rng: &mut Rng, w: &mut dyn Write) {
     writeln!(w, "suit_all").unwrap();
     for c in 0..52 {
         writeln!(w, "u64_of_card {}", c).unwrap();
+        writeln!(w, "card_bits_rt {}", c).unwrap();
         writeln!(w, "show_card {}", c).unwrap();
         for c2 in 0..52 {
             writeln!(w, "card_cmp {} {}", c, c2).unwrap();
